@@ -588,6 +588,12 @@ func (w *regWorld) auditName(m *regModel, outcome string, mustResolve bool, want
 		verifsim.Probe("name_resolves_to_non_manifest")
 		return
 	}
+	for d := range w.envRemoved {
+		// back in the cache (some pull fetched it again): from now on its absence is the client's doing
+		if _, err := os.Stat(filepath.Join(w.dir, "blobs", strings.Replace(d, ":", "-", 1))); err == nil {
+			delete(w.envRemoved, d)
+		}
+	}
 	if outcome != "success" && len(w.envRemoved) > 0 {
 		// a layer the environment removed stays missing until a pull succeeds again
 		kept := probs[:0]
